@@ -471,6 +471,8 @@ class ReconRun:
                 modifying_registry().clear()
             except Exception:
                 pass
+        if self.viol is not None:
+            self.viol['predicates'] = sorted(self.flags)
         return {
             'steps': sum(len(r['mutations']) for r in rounds_out) + len(rounds_out), 'ok_steps': self.stats.get('reconciles', 0),
             'stats': dict(self.stats), 'tuples': sorted(self.tuples), 'shapes': [], 'violation': self.viol,
